@@ -21,7 +21,7 @@ from curies.triples import Triple, read_triples, write_triples  # noqa: E402
 from pydantic import ValidationError  # noqa: E402
 
 PREFIXES = ["a", "", "é", "a b", "A", "a.b", "a1", "http", "[a"]
-IDENTIFIERS = ["", "1", "x:y", ":", "\t", '"', "\n", "\r", "é", " s ", "0:", "//e.org/1", "b]"]
+IDENTIFIERS = ["", "1", "x:y", ":", "\t", '"', "\n", "\r", "é", " s ", "0:", "//e.org/1", "b]", "a:1", "A:a:1"]
 NAMES = [None, "N", "M"]
 CLASSES = {"ReferenceTuple": ReferenceTuple, "Reference": Reference, "NamableReference": NamableReference, "NamedReference": NamedReference}
 _TMP = None
